@@ -165,8 +165,14 @@ class Z3T:
             self.side.append(v > z3.RealVal('3.14159265358979'))
             self.side.append(v < z3.RealVal('3.14159265358980'))
             return v
-        if x.is_number:
-            return z3.RealVal(str(sp.nsimplify(x, rational=True)))
+        if x.is_Pow and x.args[1] == sp.Rational(1, 2) and x.args[0].is_Rational and x.args[0] > 0:
+            v = self.var(sp.Symbol('sqrtnum_%s_%s' % (x.args[0].p, x.args[0].q), nonnegative=True))
+            self.side.append(v * v == self.poly(x.args[0]))
+            return v
+        if x.is_Pow and x.args[1] == sp.Rational(-1, 2) and x.args[0].is_Rational and x.args[0] > 0:
+            return 1 / self.poly(sp.sqrt(x.args[0]))
+        if x.is_number and x.is_Rational is not True:
+            raise S.Unsupported('irrational constant %s' % x)
         raise S.Unsupported('z3 translation of %s' % sp.srepr(x)[:80])
 
     def sign_constraint(self, e, signs):
@@ -266,7 +272,7 @@ def z3_prove(path, goal, timeout_ms=20000, extra_hyps=(), only_syms=None):
         for h in extra_hyps:
             hs.append(tr.cond(h))
         g = tr.cond(goal) if isinstance(goal, (SymBool, bool)) else goal
-    except S.Unsupported as ex:
+    except (S.Unsupported, z3.Z3Exception) as ex:
         return 'unknown', 'translation: %s' % ex, time.time() - t0
     so = z3.Solver()
     so.set('timeout', int(timeout_ms))
